@@ -347,13 +347,13 @@ def rule_f(ctx):
       'BytesIO' in A.unparse(k.ast, 200) or 'StringIO' in A.unparse(k.ast, 200)
       or 'truncate' in A.unparse(k.ast, 200) or 'MemoryFile(' in A.unparse(k.ast, 200))}
   bad = None
-  for w in wtests:
-    for m2, lab in w.succ:
-      if lab == 'true':
-        seen, parent = g.reach(m2, blocked_nodes=fresh, follow_exc=False)
-        rets = [k for k in g.nodes if k.kind == 'return' and (k.id in seen or k is m2)]
-        if rets:
-          bad = g.witness_str(parent, rets[0])
+  # paths on which `'w' in mode` was evaluated False carry no obligation; every
+  # other path to a normal return must create or truncate the buffer
+  blocked_edges = {(w.id, m2.id, lab) for w in wtests for m2, lab in w.succ if lab == 'false'}
+  seen, parent = g.reach(g.entry, blocked_nodes=fresh, blocked_edges=blocked_edges, follow_exc=False)
+  rets = [k for k in g.nodes if k.kind == 'return' and k.id in seen]
+  if rets:
+    bad = g.witness_str(parent, rets[0])
   if not wtests:
     raise AnalysisError("MemoryFileSystem.open: `'w' in mode` test vanished")
   ctx.ob('C05.f', f.fq + "#truncate-on-w", bad is None,
